@@ -439,6 +439,9 @@ func (d *BFD) SerializeTo(b gopacket.SerializeBuffer, opts gopacket.SerializeOpt
 	binary.BigEndian.PutUint32(data[20:], uint32(d.RequiredMinEchoRxInterval))
 
 	if d.AuthPresent && (d.AuthHeader != nil) {
+		if d.AuthHeader.Length() == 0 {
+			return errors.New("BFD authentication section of unsupported type cannot be serialized")
+		}
 		auth, err := b.AppendBytes(int(d.AuthHeader.Length()))
 		if err != nil {
 			return err
